@@ -16,6 +16,7 @@ import (
 	"strconv"
 	"strings"
 	"sync"
+	"sync/atomic"
 	"time"
 )
 
@@ -138,11 +139,13 @@ type Sim struct {
 	timers  []timer
 	tseq    uint64
 
-	rng      uint64
-	tapePos  int
-	steps    int
-	switches int
-	points   int
+	rng        uint64
+	tapePos    int
+	steps      int
+	switches   int
+	points     int
+	maxPoints  int
+	overPoints bool
 
 	hash   uint64
 	log    []string
@@ -180,6 +183,11 @@ func New(cfg Config, wait func()) *Sim {
 		cfg.BaseUnixMs = 1700000000000
 	}
 	s := &Sim{cfg: cfg, wait: wait, byGoid: map[int64]*Task{}, counts: map[string]int{}, pairs: map[uint64]int{}}
+	// no run of the unchanged code passes a million points (measured: evidence counters runs-with-more-than-1e5/1e6/1e7-points)
+	s.maxPoints = 20 * cfg.MaxSteps
+	if s.maxPoints < 20000000 {
+		s.maxPoints = 20000000
+	}
 	s.rng = cfg.Seed*0x9E3779B97F4A7C15 + 0x1234567
 	s.hash = 14695981039346656037
 	if cfg.PCTDepth > 0 {
@@ -420,6 +428,14 @@ func (s *Sim) park(t *Task, pred func() bool, desc string) {
 	<-t.wake
 }
 
+// runaway ends a run whose tasks have passed far more preemption points than any run of correct code does (a loop that
+// never ends and never gives up the baton, e.g. a spin on a condition nothing changes any more): the run is over its
+// budget, the task is parked for good and the controller takes over.
+func (s *Sim) runaway(t *Task) {
+	s.overPoints = true
+	s.park(t, func() bool { return false }, "runaway")
+}
+
 // Block parks the baton holder until pred() holds (evaluated by the controller at quiescent
 // instants). Used by the sim shims. Returns immediately if pred already holds.
 func (s *Sim) Block(t *Task, pred func() bool, desc string) {
@@ -450,10 +466,36 @@ func (s *Sim) YieldSync(t *Task) {
 	}
 }
 
+// Outside a simulation (the sequential fault harnesses call transformed code directly) the points are counted against
+// a budget the harness sets per scenario, so that a loop that never ends is reported like a run over its step budget
+// instead of hanging the worker until the watchdog kills it.
+var (
+	realBudget int64
+	realPoints int64
+)
+
+// Runaway is the panic value raised when the budget is exhausted.
+type Runaway struct{ Points int64 }
+
+func (r Runaway) Error() string {
+	return fmt.Sprintf("more than %d statements executed by one sequential scenario (runaway loop)", r.Points)
+}
+
+// SetRealBudget arms (n > 0) or disarms (0) the budget and resets the counter; returns the points counted since the last call.
+func SetRealBudget(n int64) int64 {
+	old := atomic.SwapInt64(&realPoints, 0)
+	atomic.StoreInt64(&realBudget, n)
+	return old
+}
+
 // Point is the statement-level preemption point inserted by simgen.
 func Point(site int) {
 	s := active
 	if s == nil {
+		if b := atomic.LoadInt64(&realBudget); b > 0 && atomic.AddInt64(&realPoints, 1) > b {
+			atomic.StoreInt64(&realBudget, 0)
+			panic(Runaway{b})
+		}
 		return
 	}
 	t := s.cur
@@ -462,6 +504,9 @@ func Point(site int) {
 	}
 	s.points++
 	t.lastSite = site
+	if s.points > s.maxPoints {
+		s.runaway(t)
+	}
 	if t.holds > 0 && s.cfg.SuppressLock {
 		return
 	}
@@ -627,6 +672,10 @@ func (s *Sim) Run(main func()) *Result {
 			}
 		}
 		s.mu.Unlock()
+		if s.overPoints {
+			s.budget = true
+			break
+		}
 		if s.OnQuiescent != nil && s.viol == nil {
 			s.observe()
 		}
